@@ -7,6 +7,8 @@ PYTHONHASHSEED, clear / reduce_size).  run(spec) executes it and returns one
 record per step; c02 judges the values, c06 the executions / hit tests / raises.
 """
 
+import asyncio
+import functools
 import inspect
 import json
 import os
@@ -85,8 +87,8 @@ def specs(draw, max_steps=25, server=True):
     for sig in sigs:
         names = S.param_names(sig)
         bank = []
-        for bi in range(draw(st.integers(1, 5))):
-            if bank and draw(st.integers(0, 2)) > 0:
+        for bi in range(draw(st.integers(2, 5))):
+            if bank and (bi == 1 or draw(st.integers(0, 2)) > 0):
                 # near-colliding sibling of an earlier vector: one argument retyped within its family
                 src = draw(st.sampled_from(bank))
                 vals = list(src["vals"])
@@ -117,14 +119,20 @@ def specs(draw, max_steps=25, server=True):
                 xkw = [[n, draw(value_specs())] for n in draw(st.lists(st.sampled_from(["zz", "yy", "a"]), max_size=2, unique=True))]
             bank.append({"vals": vals, "xpos": xpos, "xkw": xkw})
         banks.append(bank)
-    for _ in range(draw(st.integers(1, max_steps))):
+    # each function is mostly used through one carrier, so that near-colliding vectors meet in one cache key space
+    main_carrier = [draw(st.sampled_from(["f", "f", "f", "mA", "as", "pA"])) for _ in range(n_f)]
+    n_steps = draw(st.integers(1, max_steps))
+    for si in range(n_steps):
         op = draw(st.sampled_from(ops))
         fi = draw(st.integers(0, n_f - 1))
+        if si < 2:
+            # the history starts by calling a vector and its near-colliding sibling through the same carrier
+            op, fi = "call", 0
         step = {"op": op, "f": fi}
         if op in ("call", "shelve", "check", "server"):
-            b = draw(st.sampled_from(banks[fi]))
+            b = banks[fi][si] if si < 2 else draw(st.sampled_from(banks[fi]))
             step.update(vals=list(b["vals"]), xpos=b["xpos"], xkw=b["xkw"])
-            step["carrier"] = draw(st.sampled_from(["f", "f", "f", "f", "mA", "mB"]))
+            step["carrier"] = main_carrier[fi] if (si < 2 or draw(st.integers(0, 4))) else draw(st.sampled_from(["f", "mA", "mB", "as", "pA", "pB"]))
             step["npos"] = draw(st.integers(0, 5))
             step["spell_defaults"] = draw(st.booleans())
             step["perm"] = draw(st.integers(0, 1000))
@@ -188,7 +196,7 @@ class Machine:
         self.spec = spec
         self.scratch = scratch
         self.server = server
-        mod, funcs, meths, inst = S.build_module(spec["sigs"], scratch, body=BODY, header=HEADER, prefix="vfmem")
+        mod, funcs, meths, inst = S.build_module(spec["sigs"], scratch, body=BODY, header=HEADER, prefix="vfmem", with_async=True)
         self.mod = mod
         self.funcs = funcs
         self.insts = {"mA": mod.K("A"), "mB": mod.K("B")}
@@ -198,20 +206,31 @@ class Machine:
             body_ign = set("args" if x == "*" else "kw" if x == "**" else x for x in ign)
             MF.IGNORE["f_%d" % i] = body_ign
             MF.IGNORE["m_%d" % i] = body_ign
+            MF.IGNORE["a_%d" % i] = body_ign
         import joblib
         self.joblib = joblib
         self.mem = joblib.Memory(self.location, compress=spec["compress"], verbose=0)
         self.wrapped = {}
+        self.partials = {}
 
     def plain(self, fi, carrier):
         if carrier == "f":
             return self.funcs[fi]
+        if carrier == "as":
+            return getattr(self.mod, "a_%d" % fi)
+        if carrier in ("pA", "pB"):
+            key = (fi, carrier)
+            if key not in self.partials:
+                self.partials[key] = functools.partial(self.funcs[fi], "bound-" + carrier)
+            return self.partials[key]
         return getattr(self.insts[carrier], "m_%d" % fi)
 
     def cached(self, fi, carrier):
         key = (fi, carrier)
         if key not in self.wrapped:
-            self.wrapped[key] = self.mem.cache(self.plain(fi, carrier), ignore=list(self.spec["ignore"][fi]))
+            # ignore lists cannot be honoured for partial objects (documented: joblib cannot inspect them)
+            ign = [] if carrier in ("pA", "pB") else list(self.spec["ignore"][fi])
+            self.wrapped[key] = self.mem.cache(self.plain(fi, carrier), ignore=ign)
         return self.wrapped[key]
 
     def close(self):
@@ -250,15 +269,30 @@ def run(spec, scratch, server=None):
                 rec["skipped"] = "inexpressible"
                 continue
             a_specs, k_specs = sp
-            plain = m.plain(fi, step["carrier"])
+            carrier = step["carrier"]
+            is_async = carrier == "as"
+            if carrier in ("pA", "pB"):
+                # the partial binds the first positional parameter: it must exist and be passed positionally here
+                if not sig or sig[0][0] not in ("po", "pk") or not a_specs:
+                    rec["skipped"] = "partial-needs-positional"
+                    continue
+                a_specs = a_specs[1:]
+                if op == "server":
+                    rec["skipped"] = "partial-not-on-server"
+                    continue
+            plain = m.plain(fi, carrier)
             args = [V.build(a, perm_seed=step["perm"]) for a in a_specs]
             kwargs = {k: V.build(v, perm_seed=step["perm"]) for k, v in k_specs.items()}
             # the undecorated function itself says what the call means (and whether Python accepts it):
             # it returns (name, canonical form of its bound, non-ignored arguments)
             try:
-                expected = plain(*args, **kwargs)
+                expected = asyncio.run(plain(*args, **kwargs)) if is_async else plain(*args, **kwargs)
             except TypeError:
                 rec["skipped"] = "rejected-by-python"
+                continue
+            if carrier in ("pA", "pB") and MF.IGNORE.get(expected[0]):
+                # the body leaves ignored parameters out of its value but joblib cannot ignore anything for partials
+                rec["skipped"] = "partial-with-ignore"
                 continue
             name = expected[0]
             try:
@@ -273,10 +307,10 @@ def run(spec, scratch, server=None):
             before = len(MF.EXEC_LOG)
             try:
                 if op == "call":
-                    out = wrapped(*args, **kwargs)
+                    out = asyncio.run(wrapped(*args, **kwargs)) if is_async else wrapped(*args, **kwargs)
                     rec["value"] = list(out) if isinstance(out, tuple) else repr(out)
                 elif op == "shelve":
-                    ref = wrapped.call_and_shelve(*args, **kwargs)
+                    ref = asyncio.run(wrapped.call_and_shelve(*args, **kwargs)) if is_async else wrapped.call_and_shelve(*args, **kwargs)
                     rec["executed"] = len(MF.EXEC_LOG) - before
                     out = ref.get()
                     rec["value"] = list(out) if isinstance(out, tuple) else repr(out)
